@@ -1062,6 +1062,36 @@ def execute(spec, fault, bump):
         out["f_start"], out["f_final"] = f0, min(h[1] for h in hist)
         if out["f_final"] > f0 and not close(out["f_final"], f0):
             violate("result_worse_than_start", "reconcile", {"f_start": f0, "f_final": out["f_final"]})
+        # adjusted values stay within the relative bounds given, around the values the caller's program set has in the
+        # reconciliation year
+        yr = np.array([spec["year"]])
+
+        def _within(v_new, v_old, b):
+            lo_, hi_ = sorted([v_old * (1 - b), v_old * (1 + b)])
+            return lo_ - 1e-9 * max(1.0, abs(lo_)) <= v_new <= hi_ + 1e-9 * max(1.0, abs(hi_))
+
+        try:
+            for pn, prog_new in new_progset.programs.items():
+                prog_old = progset.programs[pn]
+                if spec["unit_cost_bounds"] and prog_old.unit_cost.has_data:
+                    v0, v1 = float(prog_old.unit_cost.interpolate(yr)[0]), float(np.atleast_1d(prog_new.unit_cost.vals)[0])
+                    if not _within(v1, v0, spec["unit_cost_bounds"]):
+                        violate("adjusted_value_out_of_bounds", "reconcile:unit_cost", {"program": pn, "value": v1, "start": v0, "relative_bound": spec["unit_cost_bounds"]})
+                if spec["capacity_bounds"] and prog_old.capacity_constraint.has_data:
+                    v0, v1 = float(prog_old.capacity_constraint.interpolate(yr)[0]), float(np.atleast_1d(prog_new.capacity_constraint.vals)[0])
+                    if not _within(v1, v0, spec["capacity_bounds"]):
+                        violate("adjusted_value_out_of_bounds", "reconcile:capacity_constraint", {"program": pn, "value": v1, "start": v0, "relative_bound": spec["capacity_bounds"]})
+            for key_, co_new in new_progset.covouts.items():
+                co_old = progset.covouts[key_]
+                if spec["baseline_bounds"] and not _within(float(co_new.baseline), float(co_old.baseline), spec["baseline_bounds"]):
+                    violate("adjusted_value_out_of_bounds", "reconcile:baseline", {"effect": list(key_), "value": float(co_new.baseline), "start": float(co_old.baseline), "relative_bound": spec["baseline_bounds"]})
+                if spec["outcome_bounds"]:
+                    for pn, v1 in co_new.progs.items():
+                        if pn in co_old.progs and not _within(float(v1), float(co_old.progs[pn]), spec["outcome_bounds"]):
+                            violate("adjusted_value_out_of_bounds", "reconcile:outcome", {"effect": list(key_), "program": pn, "value": float(v1), "start": float(co_old.progs[pn]), "relative_bound": spec["outcome_bounds"]})
+            bump("probe:reconcile_bounds_checked")
+        except (KeyError, IndexError) as e_:
+            violate("adjusted_value_out_of_bounds", "reconcile:structure", {"exception": f"{type(e_).__name__}: {e_}"})
     return out
 
 
